@@ -207,7 +207,9 @@ def run(ctx):
                         ctx.violation(dict(sig0, kind="scale_receives_gradient", which=sn), dict(desc=desc))
                 # ---- in-place weight update: the next forward must re-quantize from the current float weights
                 if step < n_upd:
-                    mag = float(q.weight.detach().abs().max()) * float(r.uniform(2, 10))
+                    if step == 0:
+                        base_mag = float(q.weight.detach().abs().max())
+                    mag = base_mag * float(r.uniform(2, 10))  # relative to the initial weights: updates must not blow up
                     delta = (torch.from_numpy(r.standard_normal(tuple(q.weight.shape))) * mag).to(wd)
                     style = ["no_grad_add_", "data_add_", "data_copy_", "sgd_step"][int(r.integers(4))]
                     if style == "no_grad_add_":
